@@ -16,7 +16,7 @@ def main():
         scratch = '/var/tmp/verif-selftest-%d' % os.getpid()
         shutil.rmtree(scratch, ignore_errors=True)
         os.makedirs(scratch)
-        shutil.copytree('/repo/src', os.path.join(scratch, 'src'))
+        shutil.copytree(os.path.join(os.environ.get('SELFTEST_REPO', '/repo'), 'src'), os.path.join(scratch, 'src'))
         p = os.path.join(scratch, 'src', m['file'])
         s = open(p).read()
         if s.count(m['old']) != 1:
